@@ -568,6 +568,19 @@ def moduleLoop (c : PCfg) (m : Items) : Nat → PM Items
 
 end P
 
+/-- a block keyword is nothing else: the lexical sanity condition of the block-accounting theorem
+    (`Lemmas/ParserCount.lean`), as a computation; the driver evaluates it on every parsed input -/
+def saneText (g : Grammar) (d : Dec) (x : Str) : Bool :=
+  let isB := Tok.isBeginAggregation g x
+  let isE := g.aggKeywords.any (fun p => foldEq x p.2)
+  !(isB && isE) &&
+  (!(isB || isE) ||
+    (!Tok.isWSC g x && !Tok.isDelimiter g x &&
+     (match decodeSimple d x with | .ok _ => false | .error _ => true) &&
+     !startsWith x [g.unitsDelims.1] && !Tok.isParameterName d x && !Tok.isEndStatement g x))
+
+def saneToks (g : Grammar) (d : Dec) (toks : List Token) : Bool := toks.all (fun t => saneText g d t.text)
+
 structure ParseResult where
   outcome : Except PErr Items
   errors : List Int     -- `parser.errors` after the call (unsorted, as stored)
